@@ -87,7 +87,7 @@ PROPS["C06"] = dict(
     labels=["C06.", "C07.engine.", "C10.engine.ok_replaces_rules", "C07.tags_with_set.", "C02.regex.make.function_of_inputs", "C02.regex.compile.function_of_inputs", "C01.index.",
             "C08.wire.roundtrip_fields", "C08.wire.ser_fields", "C08.wire.de_fields", "C05.fusion.", "C13.engine.", "C13.store.", "C08.to_wire.", "C08.from_wire."] + MASK,
     kani=[],
-    witness=["c06_cache.rs", "c07_tags.rs", "c05_equiv.rs", "c08_roundtrip.rs"],
+    witness=["c06_cache.rs", "c07_tags.rs", "c05_equiv.rs", "c08_roundtrip.rs", "c18_model.rs"],
     trusted=["NetworkFilterList::add_filter appends to the rules held (C01 units)", "regex cache (unit c02_regex, two R7 lifts of the arms of `match self.map.entry(key)` in RegexManager::matches): the Entry API itself is outside the contracts - that `key` selects this rule's entry, VacantEntry::insert hands back the stored value, cleanup() only ever sets a held regex to None; whether a pattern text compiles and whether a compiled regex matches are functions of the text and flags (uninterpreted); usage counters do not overflow",
              "the cache invariant (a held regex was compiled from the filter that owns the key = its address) is a precondition of the arms and re-established by them; it survives the life of a Blocker because the cache is emptied whenever filters are freed and reallocated: proved for Blocker::optimize and tags_with_set (unit c04_partition, R6 lift of `self.borrow_regex_manager().clear()` to a call on the owned cell), Engine::deserialize installs a new Blocker with a new manager; that nothing else frees a queried filter is not mechanised"],
     assumptions=[],
@@ -177,7 +177,7 @@ PROPS["C18"] = dict(
     level="proof",
     verus=["c18_gate", "c18_stringify", "c16_resources", "c18_args", "c11_cosmetic_parse", "c13_store"],
     labels=["C18.", "C13.redirect_resource.", "C13.kind.", "C16.resources.", "C16.cosmetic.parse.", "C11.cosmetic.parse.safety", "C13.store.", "C13.engine."],
-    witness=["c18_args.rs", "c11_junk.rs"],
+    witness=["c18_args.rs", "c11_junk.rs", "c18_model.rs"],
     kani=[KaniSet("src/resources/mod.rs", "c18_perm.rs", [
         Harness("c18_perm_subset", "C18.perm.subset", "C", "all 256x256 pairs; loop over the 8 bit positions fully unwound"),
         Harness("c18_perm_default", "C18.perm.default", "C", "all u8 x u8, loop-free"),
@@ -188,10 +188,11 @@ PROPS["C18"] = dict(
              "core::fmt: format!(\"{:04x}\", byte) is zero-padded lower-case hex (axiom for that literal only)",
              "Iterator::find over a slice returns an element of the slice (vf_iter shim)",
              "termination of recursive_dependencies on cyclic graphs is NOT proved (exec_allows_no_decreases_clause)",
+             "dependency closure (C18.deps.added_entries_closed, C18.scriptlet.closure_granted_and_listed): stated under store_names_wf - the store resolves every resource it hands out under that resource's own name too - which unit c13_store proves of the real store (C13.store.lookup.loaded) but which is a hypothesis here because the gate unit keeps the lookup uninterpreted; Iterator::find for slice iterators returns an accepted element / none iff all refused (vf_iter shim)",
              "per-host merge (unit c16_resources): entry().and_modify(|=).or_insert() and HashMap::remove(&str) are lifted (R6) with content-equality contracts; get_scriptlet_resources' iteration over the merged map is uninterpreted"],
     assumptions=["scriptlet argument lists stored in rules parse (established at rule parse time)"],
     level_text="Kani/CBMC proves the permission subset test over all 256x256 pairs; Verus proves that a scriptlet, and every dependency added to the page's list, is handed out only when every bit it requires "
-               "was granted to the requesting list (for any dependency graph, any prior list contents), that only injectable kinds are injected, that a resource requiring any permission or of a "
+               "was granted to the requesting list (for any dependency graph, any prior list contents), that a scriptlet is emitted only together with a dependency-closed list of resources, every member granted to the list that requested THIS injection and present in the page's list (whatever a refused scriptlet or another list left there before), that only injectable kinds are injected, that a resource requiring any permission or of a "
                "non-redirectable kind is never served as a redirect, that the escaping core of stringify_arg writes, byte for byte, the JSON escape of the argument, each escape decoding back to its byte (all strings), "
                "and that the per-host merge requests each scriptlet with the OR of the permissions of the lists that asked for it, removes exactly the identically-spelled exceptions, and everything under a blanket exception",
     level_note="the split of an argument list into arguments (parse_scriptlet_args) is proved total, not functionally",
